@@ -6,6 +6,10 @@ import PdshVerif.Opt.WcollRefine
 import PdshVerif.Opt.WcollPaths
 import PdshVerif.Opt.WcollAssemble
 import PdshVerif.Opt.WcollSplit
+import PdshVerif.Opt.WcollTargets
+import PdshVerif.Opt.WcollFd
+import PdshVerif.Opt.Settings
+import PdshVerif.Dsh.Exit
 
 /-!
 # C10  The target list is assembled faithfully from every source
@@ -28,12 +32,19 @@ The full statement "file lines of any length are read whole" is FALSE of the unc
 `file_hosts_spec_partial` / `file_source_spec_partial`: on well-formed files whose lines fit the buffer
 the reader IS the specification `Opt/WcollSpec.lean` (same expressions in the same order, one warning
 per skipped second reach, same error status); for the repaired reader without any length condition.
-Not proved here: hostlist expansion;  dirname(3)/access(2) themselves;  the opt.c side is proved
+END TO END (`target_list_end_to_end`): with C02's model of `wcoll_arg_process` / exclusion / regex filters and
+C01's `hostlist_create` / re-expansion, the hosts pdsh goes on with are the expansion of every target word in
+source order (files inlined, WCOLL iff no target source) minus the excluded names, filtered — in ONE decidable
+domain `targetDomain`; the empty list is refused with exit 1 (`no_source_no_list`, `empty_list_exit1`).
+DESCRIPTORS (`descriptors_balanced`, `open_files_le_depth`): every stream the reader opens is closed when
+`wcoll_ctx_read_file` returns, one stream per include level at most (ghost counter, erasable).
+Not proved here: hostlist expansion (outside the end-to-end section);  dirname(3)/access(2) themselves;  the opt.c side is proved
 against its own characterisation (`order_of_sources`), the check compares it with the
 specification's `assemble` on every generated command line.
 -/
 namespace PdshVerif.Props.C10
-open PdshVerif.Opt PdshVerif.Opt.Wcoll
+open PdshVerif.Opt hiding Str Cfg Env Fixes
+open PdshVerif.Opt.Wcoll
 
 /-- for every file system, include graph (cycles, diamonds, self-includes), source list, stdin and
 environment, the reader never runs out of its fuel `|fs|+1`: reading terminates -/
@@ -381,5 +392,163 @@ example : listSplit [':'] (dirname "/abs/d/A".toList) = [WcollSpec.dirOf "/abs/d
 
 example : LineOK "d".toList "#include \tB ".toList := ⟨by decide, by decide, by decide⟩
 example : LineOK "d".toList " n[1-3] # comment".toList := ⟨by decide, by decide, by decide⟩
+
+/-! ## descriptors: what the reader holds open (ghost `Fd` threaded through the reader, Opt/WcollFd.lean) -/
+
+/-- the ghost does not influence the reader: erasing it gives `readFile` back -/
+theorem fd_ghost_erasable (mode : LineMode) (fs : FS) (dirs : List (List Char)) (k : Nat) (f : List Char)
+    (s : Ctx × Fd) : (readFileG mode fs dirs k f s).1 = readFile mode fs dirs k f s.1 :=
+  readFileG_erase mode fs dirs k f s
+
+/-- EVERY STREAM IS CLOSED AGAIN: when `wcoll_ctx_read_file` returns — file read, skipped as a duplicate
+(the guard comes before `fopen`), missing or unreadable — the reader holds exactly the streams it held before,
+for every file system and include graph.  (A reader that opens first and then returns from the guard without
+`fclose` breaks this by one descriptor per skipped duplicate; checks/c10.py runs the real pdsh under a low
+RLIMIT_NOFILE with more skipped duplicates than descriptors.) -/
+theorem descriptors_balanced (mode : LineMode) (fs : FS) (dirs : List (List Char)) (k : Nat) (f : List Char)
+    (s : Ctx × Fd) : (readFileG mode fs dirs k f s).2.nopen = s.2.nopen :=
+  (readFileG_fd mode fs dirs k f s).1
+
+/-- ONE STREAM PER INCLUDE LEVEL: the number of files open at the same time never exceeds the include depth -/
+theorem open_files_le_depth (mode : LineMode) (fs : FS) (dirs : List (List Char)) (k : Nat) (f : List Char)
+    (s : Ctx × Fd) : (readFileG mode fs dirs k f s).2.peak ≤ max s.2.peak (s.2.nopen + k) :=
+  (readFileG_fd mode fs dirs k f s).2
+
+/-- ... hence never the number of files + 1, however often files name one another -/
+theorem open_files_le_files (mode : LineMode) (fs : FS) (dirs : List (List Char)) (f : List Char) (c : Ctx) :
+    (readFileG mode fs dirs (fuelFor fs) f (c, {})).2.peak ≤ fs.length + 1 := by
+  have h := (readFileG_fd mode fs dirs (fuelFor fs) f (c, {})).2
+  simpa [fuelFor] using h
+
+/-- three files that name one another in every way (cycle, diamond): three streams at most, none left open -/
+example : (readFileG shipped demoFS ["d".toList] (fuelFor demoFS) "A".toList ({}, {})).2 = ⟨0, 3⟩ := by decide
+
+/-! ## C10 ∘ C02 ∘ C01: from the command line to the hosts pdsh goes on with -/
+section EndToEnd
+open PdshVerif.Hostlist PdshVerif.Opt.Targets
+
+/-- TARGET LIST, END TO END.  The command line is a list of segments in the order `wcoll_arg_process` sees
+them: `-w` words (plain, one or TWO pairs of brackets), `^file` (its expressions, includes inlined, standing
+where the file stands), `-x` words, the exclusion files (`-x ^file`, dash `^file`), the regex words (`/re/`, and
+the same behind a dash); `wenv` = WCOLL.  In the domain `targetDomain` (ONE decidable predicate: the conjunction
+of the domains of C01's `create_word` / `wcoll_expand₂`, C02's `exclusion_correct` and C10's
+`file_source_spec_partial`), with D1, D17, D19 and F02-2BR repaired (the order of /repo: `wcoll_expand` before
+the exclusions and filters), the composition of
+  * C10's reader (`readWcoll`, which fills the file table `Env.files` of C02's model — `envOf`) and the
+    WCOLL step of `opt_args` (consulted iff no target segment — `targetList`, C02's `cliFinalW` on words),
+  * C02's `wcoll_arg_process`, `wcoll_apply_excluded`, `wcoll_apply_regex` (`Exclude.argsProcess`, `finish`),
+  * C01's `hostlist_create` and the re-expansion `wcoll_expand` (`wcoll_expand₂`, applied as it stands)
+yields exactly: the expansion (C01's `expand₂`) of every target word in source order, the files' words inlined
+(`WcollSpec.fileHosts`, the property-level reading with includes), minus every excluded name, filtered by every
+regex. -/
+theorem target_list_end_to_end (cfg : Cfg) (hD1 : cfg.fixDeleteAll = true) (hD17 : cfg.fixIterSuffix = true)
+    (hD19 : cfg.fixRemoveDepth = true) (h2Br : cfg.fix2Br = true) (mode : LineMode) (fs : FS)
+    (rematch : List Char → List Char → Option Bool)
+    (badre : List Char → Bool) (segs : List Seg) (wenv : Option (List Char × List Spec.Word))
+    (hdom : targetDomain cfg mode fs rematch badre segs wenv = true) :
+    targetList cfg (envOf mode fs rematch badre segs wenv) (wenv.map (·.1)) (segs.map Seg.text) =
+      .ok ((((Spec.expand₂ (tgtWords segs wenv)).filter
+              fun h => !(segs.flatMap Seg.xnames).contains h).filter
+            (Exclude.keepAll (envOf mode fs rematch badre segs wenv) (segs.flatMap Seg.reg)))) :=
+  targetList_correct cfg hD1 hD17 hD19 h2Br mode fs rematch badre segs wenv hdom
+
+/-- without WCOLL the composed function IS C02's `cliWords` (the function `exclusion_correct` speaks about) -/
+theorem target_list_is_cliWords (cfg : Cfg) (env : Exclude.Env) (words : List (List Char)) :
+    targetList cfg env none words = Exclude.cliWords cfg env words :=
+  targetList_no_env cfg env words
+
+/-- with WCOLL it IS C02's `cliFinalW` on the words of the options -/
+theorem target_list_is_cliFinalW (cfg : Cfg) (env : Exclude.Env) (wcollEnv : Option (List Char))
+    (evs : List Exclude.Ev) :
+    Exclude.cliFinalW cfg env wcollEnv evs = targetList cfg env wcollEnv (evs.flatMap Exclude.evWords) := rfl
+
+/-- a site: `d/all` names a rack and includes `d/more`; `d/down` (hosts out of service) includes `d/more` too -/
+def siteFS : FS :=
+  [⟨"d/all".toList, true, "n[1-3]\n#include more\n".toList⟩,
+   ⟨"d/more".toList, true, "m7 # spare\n".toList⟩,
+   ⟨"d/down".toList, true, "#include more\nr1n2\n".toList⟩]
+
+/-- `pdsh -w ^d/all,r[1-2]n[1-2] -x ^d/down -w WORD`, WORD = dash slash 3 slash (drop the names matching 3):
+    a file with an include, a word with TWO pairs of brackets, an exclusion file with the same include -/
+def siteSegs : List Seg :=
+  [.tfile "d/all".toList [.br "n".toList [⟨"1".toList, some "3".toList⟩] [] none, .plain "m7".toList],
+   .cw (.tgt (.br "r".toList [⟨"1".toList, some "2".toList⟩] "n".toList
+     (some ([⟨"1".toList, some "2".toList⟩], [])))),
+   .xfile "d/down".toList [.plain "m7".toList, .plain "r1n2".toList],
+   .cw (.re true "3".toList)]
+
+def siteMatch : List Char → List Char → Option Bool := fun p h => if p = "3".toList then some (h.contains '3') else none
+
+/-- the domain is inhabited by a command line with an include file and an exclusion file (decided) -/
+example : targetDomain Cfg.repaired .whole siteFS siteMatch (fun _ => false) siteSegs none = true := by decide
+
+/-- ... and through the theorem: n[1-3] and m7 from the file, r[1-2]n[1-2]; m7 and r1n2 excluded by the exclusion
+    file, n3 dropped by the regex -/
+example : targetList Cfg.repaired (envOf .whole siteFS siteMatch (fun _ => false) siteSegs none) none
+    (siteSegs.map Seg.text) =
+    .ok ["n1".toList, "n2".toList, "r1n1".toList, "r2n1".toList, "r2n2".toList] := by
+  have h := target_list_end_to_end Cfg.repaired rfl rfl rfl rfl .whole siteFS siteMatch (fun _ => false) siteSegs none
+    (by decide)
+  rw [show (none : Option (List Char × List Spec.Word)).map (·.1) = none from rfl] at h
+  rw [h]
+  decide
+
+/-- the same list named by WCOLL alone (no target segment): WCOLL's file is read -/
+example : targetDomain Cfg.repaired .whole siteFS siteMatch (fun _ => false)
+    [.cw (.xcl (.plain "n2".toList))]
+    (some ("d/all".toList, [.br "n".toList [⟨"1".toList, some "3".toList⟩] [] none, .plain "m7".toList])) = true := by
+  decide
+
+end EndToEnd
+
+/-! ## the empty list: "no remote hosts specified", exit 1 -/
+section EmptyList
+open PdshVerif.Hostlist PdshVerif.Opt.Targets
+
+/-- no target segment (only exclusions and filters) and no WCOLL: `opt->wcoll` stays NULL -/
+theorem no_source_no_list (cfg : Cfg) (env : Exclude.Env) (segs : List Seg)
+    (hok : ∀ s ∈ segs, SegOk cfg env s) (hfine : ∀ s ∈ segs, SegFine cfg s)
+    (hnone : segs.any Seg.isTgt = false) :
+    targetList cfg env none (segs.map Seg.text) = .nohosts := by
+  obtain ⟨_, _, _, i4⟩ := foldl_step_spec cfg segs {} [] (by simp [WInv]) hfine
+  rw [hnone] at i4
+  have hw : (segs.foldl (step cfg) {}).wcoll = none := by
+    cases h : (segs.foldl (step cfg) {}).wcoll with
+    | none => rfl
+    | some e => rw [h] at i4; simp at i4
+  unfold targetList
+  rw [argsProcess_segs cfg env segs {} hok]
+  simp only [hw, Exclude.finish]
+
+/-- what `opt_verify` asks of the list: `opt->wcoll != NULL && hostlist_count (opt->wcoll) != 0` -/
+def listPresent : Exclude.Res → Bool
+  | .ok (_ :: _) => true
+  | _ => false
+
+/-- EMPTY LIST IS REFUSED: when the list stayed NULL (no source of targets) or every target was excluded or
+filtered out, `opt_verify` (C18's model, the list's presence supplied by this property) fails, `opt_args`
+ends with exit 1, and the exit status of a refused run is 1 (C08 `refused_exit1`), whatever the other settings -/
+theorem empty_list_exit1 (r : Exclude.Res) (hr : r = .nohosts ∨ r = .ok [])
+    (fx : PdshVerif.Opt.Fixes) (d : PdshVerif.Opt.Defaults) (p : PdshVerif.Opt.Pers) (c : PdshVerif.Opt.Cfg)
+    (nops : Nat) (hplain : c.pcpServer = false ∧ c.pcpClient = false)
+    (fx' : PdshVerif.Dsh.Exit.Fixes) (fl : PdshVerif.Dsh.Exit.Flags) :
+    PdshVerif.Opt.optVerify fx d p { c with hasWcoll := listPresent r } nops = false ∧
+    PdshVerif.Dsh.Exit.mainExit fx' fl .refused = 1 := by
+  refine ⟨?_, rfl⟩
+  have hl : listPresent r = false := by rcases hr with rfl | rfl <;> rfl
+  simp [PdshVerif.Opt.optVerify, PdshVerif.Opt.optVerifyPlain, hl, hplain.1, hplain.2]
+
+/-- `pdsh -w n1,n2 -x n[1-2]`: every target is excluded — through `target_list_end_to_end` the list is empty -/
+example : targetList Cfg.repaired (envOf .whole [] (fun _ _ => none) (fun _ => false)
+      [.cw (.tgt (.plain "n1".toList)), .cw (.tgt (.plain "n2".toList)),
+       .cw (.xcl (.br "n".toList [⟨"1".toList, some "2".toList⟩] [] none))] none) none
+    ["n1".toList, "n2".toList, "-n[1-2]".toList] = .ok [] := by
+  have h := target_list_end_to_end Cfg.repaired rfl rfl rfl rfl .whole [] (fun _ _ => none) (fun _ => false)
+    [.cw (.tgt (.plain "n1".toList)), .cw (.tgt (.plain "n2".toList)),
+     .cw (.xcl (.br "n".toList [⟨"1".toList, some "2".toList⟩] [] none))] none (by decide)
+  rw [show (none : Option (List Char × List Spec.Word)).map (·.1) = none from rfl] at h
+  exact h.trans (by decide)
+
+end EmptyList
 
 end PdshVerif.Props.C10
